@@ -149,6 +149,13 @@ package getoptions
 //@     && (forall r *[]string :: allocated(r) ==> identical(*r, old_iter(*r)))
 //@     && (forall r *[]int :: allocated(r) ==> identical(*r, old_iter(*r))) && (forall r *[]float64 :: allocated(r) ==> identical(*r, old_iter(*r)))
 //@     && (forall m map[string]string :: allocated(m) ==> (forall k string :: (k in m) == old_iter(k in m) && m[k] == old_iter(m[k])))
+// The same, relative to the state in which the innermost loop was entered (for the pairs of one token: before the token was touched).
+//@ spec func OptsSameLoop() bool = (forall o *option.Option :: allocated(o) ==> o.Called == old_loop(o.Called) && o.UsedAlias == old_loop(o.UsedAlias))
+//@     && (forall r *bool :: allocated(r) ==> *r == old_loop(*r)) && (forall r *string :: allocated(r) ==> *r == old_loop(*r))
+//@     && (forall r *int :: allocated(r) ==> *r == old_loop(*r)) && (forall r *float64 :: allocated(r) ==> *r == old_loop(*r))
+//@     && (forall r *[]string :: allocated(r) ==> identical(*r, old_loop(*r)))
+//@     && (forall r *[]int :: allocated(r) ==> identical(*r, old_loop(*r))) && (forall r *[]float64 :: allocated(r) ==> identical(*r, old_loop(*r)))
+//@     && (forall m map[string]string :: allocated(m) ==> (forall k string :: (k in m) == old_loop(k in m) && m[k] == old_loop(m[k])))
 // Text and unknown-option lists of every node other than n are as at the head of the iteration.
 //@ spec func OthersSameIter(n *programTree) bool = forall m *programTree :: allocated(m) && m != n ==> identical(m.ChildText, old_iter(m.ChildText)) && identical(m.UnknownOptions, old_iter(m.UnknownOptions))
 //@ spec func UnkSameIter(n *programTree) bool = identical(n.UnknownOptions, old_iter(n.UnknownOptions))
@@ -230,6 +237,10 @@ package getoptions
 //@       && (forall j int :: 0 <= j && j < len(N0().Suggestions) && hasprefix(N0().Suggestions[j], CompWord()) ==> inseq(N0().Suggestions[j], result1) || (len(result1) == 1 && completionMode == "bash" && result1[0] == N0().Suggestions[j] ++ " "))
 //@     step comp.options {C17,C20}: $returned && completionMode != "" && hasprefix(CompWord(), "-") && !contains(CompPartial(), "=") && result2 == nil ==> result0 == N0() && sorted(result1)
 //@       && (forall q string :: OptCandidate(N0(), q) ==> inseq(OptEntry(N0(), q), result1))
+//@     step opt.unknown.stop {C09,C03,C10}: Parsing() && LooksLikeOption(Tok()) && N0().requireOrder
+//@       && (exists j int :: 0 <= j && j < len(optPair) && Unresolved(N0(), optPair[j].Option))
+//@       ==> $exit && !$returned && currentProgramNode == N0() && isconcat_tail(N0().ChildText, old_iter(N0().ChildText), args, I0())
+//@       && UnkSameIter(N0()) && OthersSameIter(N0()) && OptsSameIter()
 //@     step opt.once {C03}: Parsing() && LooksLikeOption(Tok()) && !$exit ==> currentProgramNode == N0() && OthersSameIter(N0())
 //@       && (eqseq(N0().ChildText, old_iter(N0().ChildText)) || isappend1(N0().ChildText, old_iter(N0().ChildText), Tok()))
 //@     step opt.kept {C08,C03}: Parsing() && LooksLikeOption(Tok()) && !$exit && len(N0().UnknownOptions) > old_iter(len(N0().UnknownOptions)) && PassOrWarn(N0())
@@ -259,13 +270,21 @@ package getoptions
 //@   loop "for _, fn := range currentProgramNode.SuggestionFns"
 //@     invariant comp.fn.cmds {C17}: forall q string :: (q in currentProgramNode.ChildCommands) && hasprefix(q, CompWord()) ==> inseq(q, completions)
 //@     invariant comp.fn.sugs {C17}: forall j int :: 0 <= j && j < len(currentProgramNode.Suggestions) && hasprefix(currentProgramNode.Suggestions[j], CompWord()) ==> inseq(currentProgramNode.Suggestions[j], completions)
-//@   loop "for _, p := range optPair"
+//@   loop "for _, p := range optPair"@1
+//@     invariant known.sofar {C09,C03}: forall j int :: 0 <= j && j <= $idx ==> !Unresolved(currentProgramNode, optPair[j].Option)
+//@     step known.stop {C09,C03,C10}: Unresolved(currentProgramNode, p.Option) ==> $exit && !$returned
+//@       && isconcat_tail(currentProgramNode.ChildText, old_iter(currentProgramNode.ChildText), args, old_iter(iterator.idx))
+//@       && UnkSameIter(currentProgramNode) && OptsSameIter()
+//@     step known.next {C09}: !Unresolved(currentProgramNode, p.Option) ==> !$exit && iterator.idx == old_iter(iterator.idx)
+//@       && identical(currentProgramNode.ChildText, old_iter(currentProgramNode.ChildText)) && UnkSameIter(currentProgramNode) && OptsSameIter()
+//@   loop "for _, p := range optPair"@2
 //@     modifies iterator.idx, programTree.ChildText, programTree.UnknownOptions, option.Option.Called, option.Option.UsedAlias, option.Option.MapKeysToLower,
 //@       cell(bool), cell(string), cell(int), cell(float64), cell([]string), cell([]int), cell([]float64), allmaps(map[string]string)
 //@     invariant pairs.idx: 0 <= iterator.idx && iterator.idx < len(args) && old_loop(iterator.idx) <= iterator.idx
 //@     invariant pairs.args: eqseq(args, old(args))
 //@     invariant pairs.unkok: UnkOK()
 //@     invariant pairs.token: token == args[old_loop(iterator.idx)]
+//@     invariant pairs.known {C09,C03}: currentProgramNode.requireOrder ==> (forall j int :: 0 <= j && j < len(optPair) ==> !Unresolved(currentProgramNode, optPair[j].Option))
 //@     invariant pairs.once {C03}: (!tokenPassed ==> identical(currentProgramNode.ChildText, old_loop(currentProgramNode.ChildText)))
 //@       && (tokenPassed ==> isappend1(currentProgramNode.ChildText, old_loop(currentProgramNode.ChildText), args[old_loop(iterator.idx)]))
 //@     invariant pairs.kept {C08,C03}: len(currentProgramNode.UnknownOptions) > old_loop(len(currentProgramNode.UnknownOptions)) && PassOrWarn(currentProgramNode)
@@ -273,8 +292,8 @@ package getoptions
 //@     invariant pairs.unk: len(currentProgramNode.UnknownOptions) >= old_loop(len(currentProgramNode.UnknownOptions))
 //@     invariant pairs.others: forall m *programTree :: allocated(m) && m != currentProgramNode ==> identical(m.ChildText, old_loop(m.ChildText)) && identical(m.UnknownOptions, old_loop(m.UnknownOptions))
 //@     step pair.unknown.stop {C09,C03,C10}: Unresolved(currentProgramNode, p.Option) && currentProgramNode.requireOrder ==> $exit && !$returned
-//@       && isconcat_tail(currentProgramNode.ChildText, old_iter(currentProgramNode.ChildText), args, old_iter(iterator.idx))
-//@       && UnkSameIter(currentProgramNode) && OptsSameIter()
+//@       && isconcat_tail(currentProgramNode.ChildText, old_loop(currentProgramNode.ChildText), args, old_loop(iterator.idx))
+//@       && identical(currentProgramNode.UnknownOptions, old_loop(currentProgramNode.UnknownOptions)) && OptsSameLoop()
 //@     step pair.unknown.rec {C08}: Unresolved(currentProgramNode, p.Option) && !currentProgramNode.requireOrder ==> !$exit
 //@       && len(currentProgramNode.UnknownOptions) == old_iter(len(currentProgramNode.UnknownOptions)) + 1
 //@       && currentProgramNode.UnknownOptions[old_iter(len(currentProgramNode.UnknownOptions))].Name == p.Option
